@@ -164,6 +164,28 @@ pub fn check(runs: &mut usize, fails: &mut Vec<Failure>) {
             fails.push(Failure { property: "C13", input, detail: format!("the outline is well-formed, but anthem exits with {rc} and emits {} problems: {}", problems.len(), err.lines().filter(|l| !l.trim().is_empty()).take(3).collect::<Vec<_>>().join(" / ")) });
         }
     }
+    // every predicate that the emitted problems of a task declare occurs in the task (whatever name anthem has given it, e.g. a
+    // private predicate renamed apart): a definition of it must be rejected
+    for (a, b, ug) in [("p(X) :- t(X). t(X) :- q(X).", "p(X) :- t(X), not u(X). t(X) :- q(X), X != 1.", "input: q/1. output: p/1."),
+                       ("p :- t, not w. t :- q. w :- not q, t.", "p :- t. t :- q, not w. w :- not q.", "input: q/0. output: p/0."),
+                       ("p(X) :- t_p(X). t_p(X) :- q(X).", "p(X) :- t_p(X), t(X). t_p(X) :- q(X). t(X) :- q(X), X > 0.", "input: q/1. output: p/1.")] {
+        let base = vec![("a.lp", a), ("b.lp", b), ("g.ug", ug), ("o.po", "lemma: #true.")];
+        *runs += 1;
+        let (rc, _, problems) = match run_verify(&["--equivalence", "external"], &base) { Ok(x) => x, Err(e) => { fails.push(Failure { property: "harness", input: format!("{a} | {b}"), detail: e }); return; } };
+        if rc != 0 || problems.is_empty() { fails.push(Failure { property: "harness", input: format!("{a} | {b}"), detail: format!("control task is refused (exit {rc})") }); continue; }
+        let mut taken: std::collections::BTreeSet<(String, usize)> = std::collections::BTreeSet::new();
+        for p in &problems { for (n, k) in &p.preds { if n.chars().all(|c| c.is_ascii_lowercase() || c.is_ascii_digit() || c == '_') && n.chars().next().is_some_and(|c| c.is_ascii_lowercase()) { taken.insert((n.clone(), *k)); } } }
+        for (n, k) in taken {
+            let vars: Vec<String> = (0..k).map(|i| format!("X{i}")).collect();
+            let outline = if k == 0 { format!("definition: {n} <-> #false.") } else { format!("definition: forall {} ({n}({}) <-> #false).", vars.join(" "), vars.join(", ")) };
+            let files = vec![("a.lp", a), ("b.lp", b), ("g.ug", ug), ("o.po", outline.as_str())];
+            *runs += 1;
+            let input = format!("anthem verify --equivalence external a.lp=`{a}` b.lp=`{b}` g.ug=`{ug}` o.po=`{outline}`  [the emitted problems of this task declare {n}/{k}: it occurs in the task]");
+            let (rc, err, problems) = match run_verify(&["--equivalence", "external"], &files) { Ok(x) => x, Err(e) => { fails.push(Failure { property: "harness", input, detail: e }); return; } };
+            if rc == 0 || !problems.is_empty() { fails.push(Failure { property: "C13", input, detail: format!("the outline must be rejected, but anthem exits with {rc} and emits {} problems", problems.len()) }); }
+            else if rc == 101 || err.contains("panicked at") { fails.push(Failure { property: "C16", input, detail: format!("rejected by a panic: {}", err.lines().take(2).collect::<Vec<_>>().join(" / ")) }); }
+        }
+    }
     for text in PROGRAMS {
         let p = match asp::Program::from_str(text) { Ok(p) => p, Err(_) => { fails.push(Failure { property: "harness", input: text.to_string(), detail: "corpus program does not parse".into() }); continue; } };
         *runs += 1;
